@@ -68,6 +68,12 @@ func (env *specEnv) lvalue(x SExpr) []frameItem {
 			srt, _ := ghostSort(e, g.Sort)
 			return []frameItem{{Heap: "$gv$" + x.Name, HeapSort: srt, Src: src}}
 		}
+		if g, ok := e.W.C.IfaceGh[x.Name]; ok {
+			if _, bound := env.vars[x.Name]; !bound {
+				srt, _ := ghostSort(e, g.Sort)
+				return []frameItem{{Heap: "GI$" + x.Name, HeapSort: fmt.Sprintf("(Array Iface %s)", srt), Src: src}}
+			}
+		}
 		if env.pkg != nil {
 			if obj := env.pkg.Scope().Lookup(x.Name); obj != nil {
 				if v, ok := obj.(*types.Var); ok {
@@ -459,7 +465,7 @@ func (e *Enc) execCall(v ssa.Value, c *ssa.CallCommon, in ssa.Instruction, guard
 		return
 	}
 	key, short, sig, sfn := calleeName(c)
-	ord := e.callOrdinal(short)
+	ord := e.siteOrdinal(in, "call", short)
 	site := fmt.Sprintf("%s#%d", short, ord)
 	var args []Val
 	var argTypes []types.Type
@@ -482,7 +488,7 @@ func (e *Enc) execCall(v ssa.Value, c *ssa.CallCommon, in ssa.Instruction, guard
 		// try the static receiver type
 		fc = e.W.C.Funcs["("+types.TypeString(c.Value.Type(), nil)+")."+c.Method.Name()]
 	}
-	e.applyAts("before call", short, in.Pos(), args, nil)
+	e.applyAtsIn(in, "before call", short, in.Pos(), args, nil)
 	var results []Val
 	if fc != nil {
 		results = e.applyContract(fc, key, site, sig, sfn, c, args, argTypes, bindings, in)
@@ -508,7 +514,7 @@ func (e *Enc) execCall(v ssa.Value, c *ssa.CallCommon, in ssa.Instruction, guard
 			}
 		}
 	}
-	e.applyAts("call", short, in.Pos(), args, results)
+	e.applyAtsIn(in, "call", short, in.Pos(), args, results)
 }
 
 func (e *Enc) freshResults(sig *types.Signature, hint string) []Val {
@@ -648,7 +654,7 @@ func (e *Enc) applyContract(fc *FuncContract, key, site string, sig *types.Signa
 	env := e.calleeEnv(fc, sig, sfn, c, args, argTypes, bindings)
 	for i, cl := range fc.Requires {
 		o := e.oblige("pre", fmt.Sprintf("pre:%s.%d", site, i), env.evalBool(cl.Expr), in.Pos(), cl.Src)
-		o.Label = cl.Label
+		o.setLabel(cl.Label)
 	}
 	for i, cl := range fc.Panics {
 		// callee documents a panic: the caller must not trigger it
@@ -697,12 +703,21 @@ func (e *Enc) applyContract(fc *FuncContract, key, site string, sig *types.Signa
 // ---------- at-anchors ----------
 
 func (e *Enc) applyAts(kind, name string, pos token.Pos, args []Val, results []Val) {
+	e.applyAtsIn(nil, kind, name, pos, args, results)
+}
+
+func (e *Enc) applyAtsIn(in ssa.Instruction, kind, name string, pos token.Pos, args []Val, results []Val) {
 	if e.fc == nil || len(e.fc.Ats) == 0 {
 		return
 	}
-	ordKey := "at:" + kind + " " + name
-	ord := e.kindOrd[ordKey]
-	e.kindOrd[ordKey] = ord + 1
+	base := strings.TrimPrefix(kind, "before ")
+	ord := -1
+	if in == nil {
+		in = e.curInstr
+	}
+	if in != nil {
+		ord = e.siteOrdinal(in, base, name)
+	}
 	anchor1 := strings.TrimSpace(fmt.Sprintf("%s %s#%d", kind, name, ord))
 	anchor2 := strings.TrimSpace(fmt.Sprintf("%s %s", kind, name)) // every occurrence
 	for ai, at := range e.fc.Ats {
@@ -719,10 +734,13 @@ func (e *Enc) applyAts(kind, name string, pos token.Pos, args []Val, results []V
 		for i, r := range results {
 			env.vars[fmt.Sprintf("res%d", i)] = SV{T: r.T, Sort: e.declOfTerm(r.T)}
 		}
+		for k, v := range e.atVars {
+			env.vars[k] = v
+		}
 		switch at.Kind {
 		case "assert":
 			o := e.oblige("assert", fmt.Sprintf("at:%s.%d", at.Anchor, ai), env.evalBool(at.Clause.Expr), pos, at.Clause.Src)
-			o.Label = at.Clause.Label
+			o.setLabel(at.Clause.Label)
 		case "assume":
 			e.used[fmt.Sprintf("assume at %s: %s", at.Anchor, at.Clause.Src)] = true
 			e.assume(env.evalBool(at.Clause.Expr))
@@ -777,11 +795,23 @@ func (e *Enc) execPanic(in *ssa.Panic) {
 }
 
 func (e *Enc) execReturn(in *ssa.Return) {
-	ord := e.retOrd
-	e.retOrd++
-	e.applyAts("return", "", in.Pos(), nil, nil)
+	ord := e.siteOrdinal(in, "return", "")
 	if e.fc == nil {
 		return
+	}
+	{
+		sig := e.fn.Signature
+		e.atVars = map[string]SV{}
+		for i, n := range resultNames(nil, sig) {
+			t := sig.Results().At(i).Type()
+			sv := SV{T: e.val(in.Results[i]).T, Sort: e.sortOf(t), GT: t}
+			e.atVars[n] = sv
+			if i == 0 {
+				e.atVars["result"] = sv
+			}
+		}
+		e.applyAts("return", "", in.Pos(), nil, nil)
+		e.atVars = nil
 	}
 	env := e.newSpecEnv(e.cur, e.init)
 	env.noLocals = true
@@ -804,8 +834,7 @@ func (e *Enc) execReturn(in *ssa.Return) {
 			name = fmt.Sprintf("post:%s@ret%d", cl.Label, ord)
 		}
 		o := e.oblige("post", name, env.evalBool(cl.Expr), in.Pos(), cl.Src)
-		o.Label = cl.Label
-		o.Pos = token.Position{Filename: cl.File, Line: cl.Line}
+		o.setMeta(cl.Label, token.Position{Filename: cl.File, Line: cl.Line})
 	}
 	e.returns++
 	e.retPoints = append(e.retPoints, retPoint{reach: e.curReach, nAsm: len(e.asm)})
